@@ -628,7 +628,8 @@ Lemma contiguous_holds k ca cr j : contiguous_at k ca cr j ->
   jar_holds k j (fst (get_session k CMain j)) (fst (get_session k CAcc j)) (fst (get_session k CRef j))
             (load_chunks k CAccChunk j 0 (length j)) (load_chunks k CRefChunk j 0 (length j)).
 Proof.
-  intros H. destruct (contiguous_counts _ _ _ _ H) as [-> ->]. repeat split; apply H.
+  intros H. destruct (contiguous_counts _ _ _ _ H) as [Ea Er]. unfold jar_holds. rewrite Ea, Er.
+  repeat split; apply H.
 Qed.
 
 Lemma holds_contiguous k j m a r ac rc : jar_holds k j m a r ac rc -> contiguous k j.
@@ -692,11 +693,218 @@ Proof.
   - apply load_chunks_exact.
     + apply (names_length_ge CAccChunk inj_acc). intros i Hi. apply Ha', Hi.
     + intros i Hi. cbn [Nat.add]. unfold j'. rewrite jar_get_after_save. cbn [saved]. unfold saved_chunk.
-      apply Nat.ltb_lt in Hi. rewrite Hi. reflexivity.
-    + cbn [Nat.add]. apply jar_get_None. rewrite Ha'. lia.
+      destruct (Nat.ltb i (length (s_achunks sd))) eqn:E; [reflexivity|apply Nat.ltb_ge in E; unfold payload in *; lia].
+    + cbn [Nat.add]. apply jar_get_None. rewrite Ha'. unfold payload. lia.
   - apply load_chunks_exact.
     + apply (names_length_ge CRefChunk inj_ref). intros i Hi. apply Hr', Hi.
     + intros i Hi. cbn [Nat.add]. unfold j'. rewrite jar_get_after_save. cbn [saved]. unfold saved_chunk.
-      apply Nat.ltb_lt in Hi. rewrite Hi. reflexivity.
-    + cbn [Nat.add]. apply jar_get_None. rewrite Hr'. lia.
+      destruct (Nat.ltb i (length (s_rchunks sd))) eqn:E; [reflexivity|apply Nat.ltb_ge in E; unfold payload in *; lia].
+    + cbn [Nat.add]. apply jar_get_None. rewrite Hr'. unfold payload. lia.
 Qed.
+
+(* ---------------------------------------------------------------- sessions derived from a request *)
+
+Lemma empty_payloads_length l : length (empty_payloads l) = length l.
+Proof. apply map_length. Qed.
+
+Definition cleared (sd : sdata) : sdata :=
+  mkSd [] [] [] (empty_payloads (s_achunks sd)) (empty_payloads (s_rchunks sd))
+       (s_jar_a sd) (s_jar_r sd) (s_marked_a sd) (s_marked_r sd) (s_live sd).
+
+Lemma clear_snd sd : snd (clear sd) = save_cookies (cleared sd).
+Proof. reflexivity. Qed.
+
+Lemma clear_fst sd : fst (clear sd) =
+  mkSd [] [] [] (empty_payloads (s_achunks sd)) (empty_payloads (s_rchunks sd))
+       (s_jar_a sd) (s_jar_r sd) false false false.
+Proof. reflexivity. Qed.
+
+Section RoundTrip.
+  Variable nchunks : istr -> nat.
+
+  (* a session as the handlers hold it before the first Save: loaded from the
+     request's jar, then modified by any sequence of setters *)
+  Inductive pre (k : N) (now : time) (j : jar) : sdata -> Prop :=
+  | pre_load : pre k now j (load k now j)
+  | pre_main f s sd : pre k now j sd -> pre k now j (set_main f s sd)
+  | pre_auth t b sd : pre k now j sd -> pre k now j (set_authenticated t b sd)
+  | pre_acc t sd : pre k now j sd -> pre k now j (set_access nchunks t sd)
+  | pre_ref t sd : pre k now j sd -> pre k now j (set_refresh nchunks t sd).
+
+  Definition pre_inv (ca cr : nat) (sd : sdata) : Prop :=
+    s_live sd = true /\ s_jar_a sd = ca /\ s_jar_r sd = cr
+    /\ (s_marked_a sd = true \/ length (s_achunks sd) = ca)
+    /\ (s_marked_r sd = true \/ length (s_rchunks sd) = cr).
+
+  Lemma pre_invariant k now j ca cr sd : contiguous_at k ca cr j -> pre k now j sd -> pre_inv ca cr sd.
+  Proof.
+    intros Hc Hp. induction Hp as [|f s sd Hp IH|t b sd Hp IH|t sd Hp IH|t sd Hp IH].
+    - destruct (contiguous_counts _ _ _ _ Hc) as [Ea Er]. unfold load, pre_inv.
+      destruct (session_too_old now (fst (get_session k CMain j))); cbn;
+        rewrite ?empty_payloads_length; auto 10.
+    - exact IH.
+    - exact IH.
+    - destruct IH as (Hl & Ha & Hr & Hma & Hmr). unfold set_access, pre_inv.
+      destruct (store_token nchunks t (s_acc sd)) as [a ch]. cbn. rewrite Hl, orb_true_r. auto 10.
+    - destruct IH as (Hl & Ha & Hr & Hma & Hmr). unfold set_refresh, pre_inv.
+      destruct (store_token nchunks t (s_ref sd)) as [a ch]. cbn. rewrite Hl, orb_true_r. auto 10.
+  Qed.
+
+  Lemma pre_inv_cov ca cr sd : pre_inv ca cr sd ->
+    cov ca (length (s_achunks sd)) (s_marked_a sd) (s_jar_a sd)
+    /\ cov cr (length (s_rchunks sd)) (s_marked_r sd) (s_jar_r sd).
+  Proof.
+    intros (Hl & Ha & Hr & Hma & Hmr). unfold cov. split.
+    - destruct Hma as [Hm|Hm]; [right; split; [exact Hm|lia]|left; lia].
+    - destruct Hmr as [Hm|Hm]; [right; split; [exact Hm|lia]|left; lia].
+  Qed.
+
+  (* THE JAR ROUND TRIP.  Whatever the handlers did to the session before
+     saving, after the browser applied the Set-Cookie headers of Save its jar is
+     contiguous again and holds exactly the saved session: the stale chunk
+     cookies (indices >= the new count) were deleted by `deletions`. *)
+  Theorem save_roundtrip k now j sd :
+    contiguous k j -> pre k now j sd -> holds_session k (apply_cookies k j (save_cookies sd)) sd.
+  Proof.
+    intros (ca & cr & Hc) Hp. destruct (pre_inv_cov _ _ _ (pre_invariant _ _ _ _ _ _ Hc Hp)) as [H1 H2].
+    exact (save_holds k j sd ca cr Hc H1 H2).
+  Qed.
+
+  Theorem save_load_roundtrip k now now' j sd :
+    contiguous k j -> pre k now j sd -> session_too_old now' (s_main sd) = false ->
+    let j' := apply_cookies k j (save_cookies sd) in
+    contiguous k j'
+    /\ load k now' j' = mkSd (s_main sd) (s_acc sd) (s_ref sd) (s_achunks sd) (s_rchunks sd)
+                             (length (s_achunks sd)) (length (s_rchunks sd)) false false true.
+  Proof.
+    intros Hc Hp Hold j'. pose proof (save_roundtrip k now j sd Hc Hp) as Hh. split.
+    - exact (holds_contiguous _ _ _ _ _ _ _ Hh).
+    - exact (load_of_holds _ _ _ _ _ _ _ _ Hh Hold).
+  Qed.
+
+  Corollary save_load_reads k now now' j sd :
+    contiguous k j -> pre k now j sd -> session_too_old now' (s_main sd) = false ->
+    let sd' := load k now' (apply_cookies k j (save_cookies sd)) in
+    get_access nchunks sd' = get_access nchunks sd
+    /\ get_refresh nchunks sd' = get_refresh nchunks sd
+    /\ s_main sd' = s_main sd
+    /\ (forall f, get_str f (s_main sd') = get_str f (s_main sd))
+    /\ authenticated now' sd' = authenticated now' sd
+    /\ s_achunks sd' = s_achunks sd /\ s_rchunks sd' = s_rchunks sd.
+  Proof.
+    intros Hc Hp Hold sd'. destruct (save_load_roundtrip k now now' j sd Hc Hp Hold) as [_ E].
+    unfold sd'. rewrite E. unfold get_access, get_refresh, authenticated. cbn. repeat split; reflexivity.
+  Qed.
+
+  Lemma read_token_empty l : read_token nchunks [] (empty_payloads l) = TEmpty.
+  Proof.
+    assert (E : forall l, concat (map (get_text 1) (empty_payloads l)) = []).
+    { intros l0. induction l0 as [|q l0 IH]; [reflexivity|exact IH]. }
+    unfold read_token. change (get_text 1 []) with (@nil piece). change (get_bool 2 []) with false.
+    cbv iota. rewrite E. destruct (empty_payloads l); reflexivity.
+  Qed.
+
+  (* Clear: every cookie of the jar is overwritten by an empty one *)
+  Theorem clear_roundtrip k now now' j sd :
+    contiguous k j -> pre k now j sd ->
+    let j' := apply_cookies k j (snd (clear sd)) in
+    contiguous k j'
+    /\ load k now' j' = mkSd [] [] [] (empty_payloads (s_achunks sd)) (empty_payloads (s_rchunks sd))
+                             (length (s_achunks sd)) (length (s_rchunks sd)) false false true.
+  Proof.
+    intros (ca & cr & Hc) Hp j'. unfold j'. rewrite clear_snd.
+    destruct (pre_inv_cov _ _ _ (pre_invariant _ _ _ _ _ _ Hc Hp)) as [H1 H2].
+    assert (Hh : holds_session k (apply_cookies k j (save_cookies (cleared sd))) (cleared sd)).
+    { apply (save_holds k j (cleared sd) ca cr Hc); cbn; rewrite empty_payloads_length; assumption. }
+    split; [exact (holds_contiguous _ _ _ _ _ _ _ Hh)|].
+    rewrite (load_of_holds _ now' _ _ _ _ _ _ Hh) by reflexivity. cbn.
+    rewrite !empty_payloads_length. reflexivity.
+  Qed.
+
+  Corollary clear_load_reads k now now' j sd :
+    contiguous k j -> pre k now j sd ->
+    let sd' := load k now' (apply_cookies k j (snd (clear sd))) in
+    s_main sd' = [] /\ s_acc sd' = [] /\ s_ref sd' = []
+    /\ Forall (fun p => p = []) (s_achunks sd') /\ Forall (fun p => p = []) (s_rchunks sd')
+    /\ get_access nchunks sd' = TEmpty /\ get_refresh nchunks sd' = TEmpty
+    /\ authenticated now' sd' = false.
+  Proof.
+    intros Hc Hp sd'. destruct (clear_roundtrip k now now' j sd Hc Hp) as [_ E].
+    unfold sd'. rewrite E. unfold get_access, get_refresh, authenticated.
+    cbn [s_main s_acc s_ref s_achunks s_rchunks]. rewrite !read_token_empty.
+    repeat split; try reflexivity; unfold empty_payloads; apply Forall_forall; intros p Hp';
+      apply in_map_iff in Hp' as (q & <- & _); reflexivity.
+  Qed.
+
+  (* ---------------------------------------------------------------- several Saves in one response *)
+
+  (* The handlers may Save more than once while building one response (a failed
+     refresh saves, then the login redirect clears and saves again).  `emit`
+     describes that: the current session, the last saved snapshot, and all
+     Set-Cookie headers so far.  After the first Save only the main cookie's
+     values change (the token setters are never called again). *)
+  Inductive emit (k : N) (now : time) (j : jar) : sdata -> sdata -> list setcookie -> Prop :=
+  | emit_save sd : pre k now j sd -> emit k now j (after_save sd) sd (save_cookies sd)
+  | emit_clear sd : pre k now j sd -> emit k now j (fst (clear sd)) (cleared sd) (snd (clear sd))
+  | emit_main f s sd sv cs : emit k now j sd sv cs -> emit k now j (set_main f s sd) sv cs
+  | emit_auth t b sd sv cs : emit k now j sd sv cs -> emit k now j (set_authenticated t b sd) sv cs
+  | emit_again sd sv cs : emit k now j sd sv cs -> emit k now j (after_save sd) sd (cs ++ save_cookies sd)
+  | emit_clear_again sd sv cs :
+      emit k now j sd sv cs -> emit k now j (fst (clear sd)) (cleared sd) (cs ++ snd (clear sd)).
+
+  Theorem emit_holds k now j sd sv cs :
+    contiguous k j -> emit k now j sd sv cs ->
+    holds_session k (apply_cookies k j cs) sv
+    /\ length (s_achunks sd) = length (s_achunks sv)
+    /\ length (s_rchunks sd) = length (s_rchunks sv).
+  Proof.
+    intros Hc He. induction He as [sd Hp|sd Hp|f s sd sv cs He IH|t b sd sv cs He IH|sd sv cs He IH|sd sv cs He IH].
+    - split; [exact (save_roundtrip k now j sd Hc Hp)|split; reflexivity].
+    - split; [|split; reflexivity]. rewrite clear_snd. destruct Hc as (ca & cr & Hc).
+      destruct (pre_inv_cov _ _ _ (pre_invariant _ _ _ _ _ _ Hc Hp)) as [H1 H2].
+      apply (save_holds k j (cleared sd) ca cr Hc); cbn; rewrite empty_payloads_length; assumption.
+    - exact IH.
+    - exact IH.
+    - destruct IH as (Hh & La & Lr). split; [|split; reflexivity].
+      rewrite apply_cookies_app. destruct Hh as (Hcont & _).
+      apply (save_holds k _ sd _ _ Hcont); left; lia.
+    - destruct IH as (Hh & La & Lr). split; [|split; reflexivity].
+      rewrite apply_cookies_app, clear_snd. destruct Hh as (Hcont & _).
+      apply (save_holds k _ (cleared sd) _ _ Hcont); left; cbn; rewrite empty_payloads_length; lia.
+  Qed.
+
+End RoundTrip.
+
+(* ---------------------------------------------------------------- the repaired defect *)
+
+(* Save without the deletion of stale chunk cookies (the pinned behaviour) *)
+Definition save_cookies_nodel (sd : sdata) : list setcookie :=
+  [(CMain, s_main sd, false); (CAcc, s_acc sd, false); (CRef, s_ref sd, false)]
+  ++ number_from CAccChunk 0 (s_achunks sd) ++ number_from CRefChunk 0 (s_rchunks sd).
+
+Definition ex_nc (t : istr) : nat := if N.eqb t 1 then 3 else if N.eqb t 2 then 2 else 1.
+
+(* a 3-chunk token is stored, then replaced by a 2-chunk token: with the
+   deletions the jar reads back the new token; without them the old third chunk
+   stays in the jar and the re-assembled text is not a token *)
+Example roundtrip_refuted_without_deletion :
+  let k := 7%N in
+  let j1 := apply_cookies k [] (save_cookies (set_access ex_nc 1%N (load k 0%Z []))) in
+  let sd2 := set_access ex_nc 2%N (load k 0%Z j1) in
+  get_access ex_nc (load k 0%Z j1) = TTok 1%N
+  /\ get_access ex_nc sd2 = TTok 2%N
+  /\ get_access ex_nc (load k 0%Z (apply_cookies k j1 (save_cookies sd2))) = TTok 2%N
+  /\ get_access ex_nc (load k 0%Z (apply_cookies k j1 (save_cookies_nodel sd2))) = TJunk.
+Proof. vm_compute. repeat split. Qed.
+
+(* `after_save` models "Save has been called": its Set-Cookie headers are part
+   of the response.  Dropping them (saving only the later state) loses the
+   deletions, so the round trip is NOT a property of arbitrary interleavings of
+   after_save with the setters; `emit` above is the accurate formulation. *)
+Example roundtrip_needs_every_save :
+  let k := 7%N in
+  let j1 := apply_cookies k [] (save_cookies (set_access ex_nc 1%N (load k 0%Z []))) in
+  let sd2 := after_save (set_access ex_nc 2%N (load k 0%Z j1)) in
+  get_access ex_nc sd2 = TTok 2%N
+  /\ get_access ex_nc (load k 0%Z (apply_cookies k j1 (save_cookies sd2))) = TJunk.
+Proof. vm_compute. repeat split. Qed.
